@@ -210,6 +210,13 @@ impl<K: Send, V: Send + Sync, H> CacheShared<K, V, H> {
           let value_arc_to_return = new_cache_entry.value();
 
           let shard = shared.store.get_shard(&key);
+          // Insert the value and retire the pending marker in one step (pending lock first, then
+          // the shard lock, the order `load_value_blocking` uses): a caller that misses after a
+          // later remove / invalidate / clear must not find the marker of a load whose value is
+          // already gone again and be handed that value.
+          let hash = crate::store::hash_key(&shared.store.hasher, &key);
+          let index = hash as usize & (shared.pending_loads.len() - 1);
+          let mut pending = shared.pending_loads[index].lock();
           {
             let mut guard = shard.map.write();
             let old_entry = guard.insert(key.clone(), new_cache_entry);
@@ -225,6 +232,8 @@ impl<K: Send, V: Send + Sync, H> CacheShared<K, V, H> {
               .current_cost
               .fetch_sub(old_cost, Ordering::Relaxed);
           }
+          pending.remove(&key);
+          drop(pending);
 
           // Record the write event in the buffer for the janitor to process later
           let _ = shard
@@ -237,10 +246,6 @@ impl<K: Send, V: Send + Sync, H> CacheShared<K, V, H> {
             .metrics
             .total_cost_added
             .fetch_add(cost, Ordering::Relaxed);
-
-          let hash = crate::store::hash_key(&shared.store.hasher, &key);
-          let index = hash as usize & (shared.pending_loads.len() - 1);
-          shared.pending_loads[index].lock().remove(&key);
 
           future.complete(value_arc_to_return);
         });
@@ -263,6 +268,10 @@ impl<K: Send, V: Send + Sync, H> CacheShared<K, V, H> {
             let value_arc_to_return = new_cache_entry.value();
 
             let shard = shared.store.get_shard(&key);
+            // insert and retire the pending marker in one step (see the sync branch)
+            let hash = crate::store::hash_key(&shared.store.hasher, &key);
+            let index = hash as usize & (shared.pending_loads.len() - 1);
+            let mut pending = shared.pending_loads[index].lock_async().await;
             {
               let mut guard = shard.map.write_async().await;
               let old_entry = guard.insert(key.clone(), new_cache_entry);
@@ -278,6 +287,8 @@ impl<K: Send, V: Send + Sync, H> CacheShared<K, V, H> {
                 .current_cost
                 .fetch_sub(old_cost, Ordering::Relaxed);
             }
+            pending.remove(&key);
+            drop(pending);
 
             // Record the write event
             let _ = shard
@@ -291,11 +302,6 @@ impl<K: Send, V: Send + Sync, H> CacheShared<K, V, H> {
               .total_cost_added
               .fetch_add(cost, Ordering::Relaxed);
 
-            {
-              let hash = crate::store::hash_key(&shared.store.hasher, &key);
-              let index = hash as usize & (shared.pending_loads.len() - 1);
-              shared.pending_loads[index].lock_async().await.remove(&key);
-            }
             future.complete(value_arc_to_return);
           }
         };
